@@ -3,13 +3,31 @@
    codec := a dictionary of the real pickle byte strings located in the implementation's files (a value is
    decoded iff one of the known encodings is a prefix of the input); parser data = its pickle bytes;
    load = identity; build = the (used files, data) pair the implementation wrote for that event. *)
-From Coq Require Import List Ascii String Bool Arith.
+From Coq Require Import List Ascii String Bool Arith ZArith Uint63.
 From LV Require Import Cache.Bytes Cache.PyRepr Gen.CacheKey Cache.Cache Cache.Sha256.
 Import ListNotations.
 
 Definition ccfg := cfg unit.
 Definition mk (g : string) (opts : list (string * string)) (ver pyv : string) : ccfg :=
   mkCfg unit (B g) (map (fun kv => (fst kv, B (snd kv))) opts) tt (B ver) (B pyv).
+
+(* binary data is handed over as (length, big-endian 7-byte groups in primitive integers): number literals are
+   parsed natively, string literals of that size are not *)
+Definition blob := (nat * list int)%type.
+
+Fixpoint bytes_of_int (x : int) (k : nat) : bytes :=
+  match k with
+  | O => []
+  | S k' => ascii_of_nat (Z.to_nat (to_Z ((x >> (8 * of_Z (Z.of_nat k'))) land 255)%uint63)) :: bytes_of_int x k'
+  end.
+
+Fixpoint unpack (len : nat) (l : list int) : bytes :=
+  match l with
+  | [] => []
+  | x :: r => let k := Nat.min len 7 in bytes_of_int x k ++ unpack (len - k) r
+  end.
+
+Definition XB (b : blob) : bytes := unpack (fst b) (snd b).
 
 Fixpoint ufiles_eqb (a b : ufiles) : bool :=
   match a, b with
@@ -45,7 +63,8 @@ Definition env_of (l : list (bytes * bytes)) : env :=
 
 Definition sU (l : list (string * string)) : ufiles := map (fun ph => (B (fst ph), B (snd ph))) l.
 Definition sE (l : list (string * string)) : list (bytes * bytes) := map (fun ph => (B (fst ph), B (snd ph))) l.
-Definition sTU (l : list (string * list (string * string))) : tblU := map (fun eu => (B (fst eu), sU (snd eu))) l.
+(* used-files table: (the pickle, [(path, hex digest)]) *)
+Definition sTU (l : list (blob * list (string * string))) : tblU := map (fun eu => (XB (fst eu), sU (snd eu))) l.
 
 Definition c_read (tu : tblU) (td : tblD) (f : bytes) (c : ccfg) (e : env) : bool :=
   match read unit sha256_hex bytes bytes (dec_U tu) (dec_D td) (fun d _ => Some d) f c e with
@@ -55,32 +74,51 @@ Definition c_read (tu : tblU) (td : tblD) (f : bytes) (c : ccfg) (e : env) : boo
 
 (* ---- 1. the file written: header line = sha256 hex of the framed key, space, sha256 hex of the body,
           newline, then the two pickles *)
-Definition check_write (x : ccfg * string * string * string) : bool :=
-  let '(c, pu, pd, fl) := x in
-  beqb (B fl) (mk_file sha256_hex (key unit c) (B pu ++ B pd)).
+(* the file is handed over as its first line (text), and the two pickles found after the newline *)
+Definition check_write (x : ccfg * string * blob * blob) : bool :=
+  let '(c, hdr, pu, pd) := x in
+  beqb (B hdr ++ nl :: XB pu ++ XB pd) (mk_file sha256_hex (key unit c) (XB pu ++ XB pd)).
 
 (* hex digest of the framed key alone (compared with the first 64 bytes of the header) *)
 Definition key_digest (c : ccfg) : string := string_of_list_ascii (sha256_hex (key unit c)).
 
-(* ---- 2. reads of damaged / foreign files: (cfg, used-files table, data table, env, file, edits, observed) *)
-Inductive edit := Trunc (n : nat) | Flip (i : nat) (b : ascii) | Whole.
+(* a file of the history: raw bytes, or header line + newline + the pickles number iu / id of the tables, cut *)
+Inductive fileref := FRaw (b : blob) | FParts (hdr : string) (iu id : nat) (cut : option nat).
 
-Definition apply_edit (f : bytes) (e : edit) : bytes :=
-  match e with Trunc n => firstn n f | Flip i b => set_byte i b f | Whole => f end.
+Definition file_of (tu : tblU) (td : tblD) (r : fileref) : bytes :=
+  match r with
+  | FRaw b => XB b
+  | FParts h iu id cut =>
+      let f := B h ++ nl :: fst (nth iu tu ([], [])) ++ nth id td [] in
+      match cut with None => f | Some n => firstn n f end
+  end.
+
+(* ---- 2. reads of damaged / foreign files: (cfg, used-files table, data table, env, file, edits, observed) *)
+(* Rehash n: the body cut to n bytes under a header recomputed for it (a consistent header over a truncated
+   pickle: exercises the decode failures that `except Exception` turns into a rebuild) *)
+Inductive edit := Trunc (n : nat) | Flip (i : nat) (b : ascii) | Whole | Rehash (n : nat).
+
+Definition apply_edit (c : ccfg) (f : bytes) (e : edit) : bytes :=
+  match e with
+  | Trunc n => firstn n f
+  | Flip i b => set_byte i b f
+  | Whole => f
+  | Rehash n => mk_file sha256_hex (key unit c) (firstn n (snd (split_line f)))
+  end.
 
 Definition check_reads
-  (x : ccfg * list (string * list (string * string)) * list string * list (string * string) * string
+  (x : ccfg * list (blob * list (string * string)) * list blob * list (string * string) * fileref
        * list (edit * bool)) : bool :=
   let '(c, tu, td, e, fl, obs) := x in
-  let tu' := sTU tu in let td' := map B td in let e' := env_of (sE e) in let f := B fl in
-  forallb (fun eo => Bool.eqb (c_read tu' td' (apply_edit f (fst eo)) c e') (snd eo)) obs.
+  let tu' := sTU tu in let td' := map XB td in let e' := env_of (sE e) in let f := file_of tu' td' fl in
+  forallb (fun eo => Bool.eqb (c_read tu' td' (apply_edit c f (fst eo)) c e') (snd eo)) obs.
 
 (* ---- 3. histories on one path ------------------------------------------------------------------- *)
 (* one event: configuration, env, crash offset, what the implementation built when it missed
    (index of the used-files pickle in the table, index of the data pickle), observed hit?, observed file after *)
 Record hev := mkHev {
   h_cfg : ccfg; h_env : list (string * string); h_crash : option nat;
-  h_built : option (nat * nat); h_hit : bool; h_after : option string }.
+  h_built : option (nat * nat); h_hit : bool; h_after : option fileref }.
 
 Definition file_eqb (a b : option bytes) : bool :=
   match a, b with
@@ -104,13 +142,14 @@ Fixpoint check_events (tu : tblU) (td : tblD) (fl : file) (l : list hev) : bool 
                             (fun _ _ => bld) (fun d _ => Some (true, d)) fl
                             (mkEv unit (h_cfg ev) e (h_crash ev)) in
       let hit := match o with Some (Some (true, _)) => true | _ => false end in
-      Bool.eqb hit (h_hit ev) && file_eqb fl' (option_map B (h_after ev)) && check_events tu td fl' r
+      Bool.eqb hit (h_hit ev) && file_eqb fl' (option_map (file_of tu td) (h_after ev)) && check_events tu td fl' r
   end.
 
 Definition check_hist
-  (x : list (string * list (string * string)) * list string * option string * list hev) : bool :=
+  (x : list (blob * list (string * string)) * list blob * option fileref * list hev) : bool :=
   let '(tu, td, f0, evs) := x in
-  check_events (sTU tu) (map B td) (option_map B f0) evs.
+  let tu' := sTU tu in let td' := map XB td in
+  check_events tu' td' (option_map (file_of tu' td') f0) evs.
 
 (* sanity of the executable digest (FIPS 180-4 test vectors) *)
 Example sha256_abc :
